@@ -91,6 +91,13 @@ func (h *FakeHost) SetAddrs(a []ma.Multiaddr) {
 }
 
 func (h *FakeHost) Connect(ctx context.Context, pi peer.AddrInfo) error {
+	// as the libp2p swarm: no dial to an invalid (empty) peer id or to self
+	if err := pi.ID.Validate(); err != nil {
+		return err
+	}
+	if pi.ID == h.id {
+		return errors.New("dial to self attempted")
+	}
 	if len(pi.Addrs) > 0 {
 		h.ps.AddAddrs(pi.ID, pi.Addrs, peerstore.TempAddrTTL)
 	}
@@ -145,6 +152,12 @@ func (h *FakeHost) Protocols() []protocol.ID {
 }
 
 func (h *FakeHost) NewStream(ctx context.Context, p peer.ID, pids ...protocol.ID) (network.Stream, error) {
+	if err := p.Validate(); err != nil {
+		return nil, err
+	}
+	if p == h.id {
+		return nil, errors.New("dial to self attempted")
+	}
 	if h.Stream == nil {
 		return nil, errors.New("fakehost: no stream function")
 	}
